@@ -89,13 +89,48 @@ def run(ctx):
                     cases.append({"s": rng.choice(["01/02/2015", "03-04-2011", "05.06.2019 10:30", "12/31/2012", "31/12/2012", "2012/31/12", "12/31/2012 10:30"]), "langs": names, "given": given, "order": tried, "via": via,
                                   "defaults": [rng.choice(order)], "region": None, "settings": {"RELATIVE_BASE": BASE}, "lang0": L0})
     results = core.run_cases(ctx, "harness.lib", "call_c13", cases, chunk=20)
+    # ---- conventions of regional locales, with other locales of the same language loaded BEFORE in the same (fresh)
+    # process: a regional locale first, then the bare language, then the locale under test
+    conv, conv_res = [], []
+    if not ctx.replay:
+        LX = core.run_cases(ctx, "harness.export", "export_locales", [{}], nproc=1)[0]["langs"]
+        word = {L: next((m for m in W["langs"][L]["months"] if m), "") for L in order}
+        for L in order:
+            locs = LX[L]["locales"]
+            differing = [loc for loc, o in sorted(locs.items()) if o != LX[L]["date_order"]]
+            if not differing or len(locs) < 2:
+                continue
+            for r2 in (differing if not ctx.quick() else rng.sample(differing, min(2, len(differing)))):
+                r1 = rng.choice([x for x in sorted(locs) if x != r2])
+                y, m, d = rng.choice([(2020, 1, 2), (2015, 3, 4), (1999, 11, 12)])
+                o = locs[r2] or "MDY"
+                fld = {"Y": [4, y], "M": [2, m], "D": [2, d]}
+                f = [fld[ch] for ch in o]
+                sep = rng.choice(["/", "-", "."])
+                s_ = sep.join(("%04d" if ln == 4 else "%02d") % v for ln, v in f)
+                pre = [{"s": "1 %s 2020" % word[L], "kw": {"locales": [r1]}, "settings": {"RELATIVE_BASE": BASE}},
+                       {"s": "1 %s 2020" % word[L], "kw": {"languages": [L]}, "settings": {"RELATIVE_BASE": BASE}}]
+                lang_, reg_ = r2.rsplit("-", 1)
+                for kw in ({"locales": [r2]}, {"languages": [lang_], "region": reg_}):
+                    for pre_ in (pre, [], pre[1:]):
+                        conv.append({"s": s_, "kw": kw, "settings": {"RELATIVE_BASE": BASE}, "api": "ddp", "probe": False, "pre": pre_,
+                                     "f": f, "sep": sep, "locorder": locs[r2], "loc": r2})
+        conv_res = core.run_fresh(ctx, "harness.lib", "call_parse", conv)
     records = []
+    for j, (c, r) in enumerate(zip(conv, conv_res)):
+        records.append({"kind": "conv", "tid": 10 ** 6 + j, "f": c["f"], "sep": c["sep"], "locorder": c["locorder"], "out": r["out"], "exc": r["exc"]})
     for i, (c, r) in enumerate(zip(cases, results)):
-        records.append({"tid": i, "order": c["order"], "defaults": c["defaults"], "singles": r["singles"], "multi": r["multi"], "multidef": r["multidef"],
+        records.append({"kind": "main", "tid": i, "order": c["order"], "defaults": c["defaults"], "singles": r["singles"], "multi": r["multi"], "multidef": r["multidef"],
                         "auto": r["auto"], "reparse": r["reparse"], "region": r["region"], "asLocale": r["asLocale"], "exc": r["exc"], "tries": r["tries"], "bound": bool(r["probe_bound"])})
     tuples, gen = core.validate_traces(ctx, "T_C13", "SPECIFICATION TSpec\nPOSTCONDITION Consumed\nCHECK_DEADLOCK FALSE\n", records)
     for t in tuples["REJECT"]:
         _, tid, kind, verdict, exp = t[:5]
+        if tid >= 10 ** 6:
+            c, r = conv[tid - 10 ** 6], conv_res[tid - 10 ** 6]
+            ctx.violation({"fresh_process_history": [[p_["s"], p_["kw"]] for p_ in c["pre"]], "then": "DateDataParser(%s).get_date_data(%r)" % (
+                ", ".join("%s=%r" % kv for kv in c["kw"].items()), c["s"]), "locale": c["loc"], "its_date_order": c["locorder"]}, verdict, expected=exp,
+                observed={"out": r["out"], "locale": r["locale"], "exc": r["exc"]})
+            continue
         c, r = cases[tid], results[tid]
         if kind == "abs":
             ctx.note_drift("Pipeline", {"string": c["s"], c.get("via", "languages"): c["langs"], "use_given_order": c["given"], "specified_order": c["order"],
@@ -109,7 +144,7 @@ def run(ctx):
     from .. import tokcheck
     tok = tokcheck.run(ctx, W) if not ctx.replay else {}
     cov = {
-        "tokenize": tok,
+        "tokenize": tok, "regional_convention_cases_in_fresh_processes": len(conv),
         "states": mc.distinct, "transitions": mc.generated, "traces_validated_against_impl": len(cases),
         "evaluations": sum(len(c["order"]) + 6 for c in cases),
         "distinct_nontrivial": len({(c["s"], tuple(c["langs"]), c["given"]) for c, r in zip(cases, results) if r["multi"]["res"] or r["auto"]["res"]}),
